@@ -1157,6 +1157,9 @@ func (ex *Exec) simple(st *State, fr *Frame, in ssa.Instruction) {
 				if g.Ord == ord && g.NC {
 					nc = true
 				}
+				if g.Ord == ord && g.Own {
+					st.pinned = append(st.pinned, ref)
+				}
 			}
 		}
 		if nc {
